@@ -324,6 +324,22 @@ Theorem C07_signer_hard_error_charges_own_limit :
 Proof. exact signer_hard_error_charges_own_limit. Qed.
 Print Assumptions C07_signer_hard_error_charges_own_limit.
 
+(** one account signs every message ([all_signed_by s]): the signer model and the
+    single-sender model of the theorems further up give the same verdict, the same
+    per-message results, the same payment of that account and the same collector gain *)
+Theorem C07_single_signer_models_agree :
+  forall p s b coll sms evs,
+    all_signed_by s sms ->
+    match deliver_eth_s p b coll sms evs, deliver_eth p (b s) coll (map snd sms) evs with
+    | RejectedS c, Rejected c' => c = c'
+    | FailedS b1 c1 g, Failed d g' => g = g' /\ c1 - coll = d /\ b s - b1 s = d
+    | ExecutedS b2 c2 l, Executed d l' =>
+        l = l' /\ c2 - coll = d - zsum (map snd l) /\ b s - b2 s = d - zsum (map snd l)
+    | _, _ => False
+    end.
+Proof. exact single_signer_agrees. Qed.
+Print Assumptions C07_single_signer_models_agree.
+
 (** non-vacuity: [ex_aba] = [A; B; A] (A: legacy and access-list message, B: the
     dynamic-fee one) executed, all hypotheses met; observed: nets of A, B, C (C pays
     nothing), collector gain, gas used per message *)
